@@ -188,14 +188,51 @@ theorem start_eq_steps (cfg : Config S) (P : NodeId → Proto S σ) (fuel : Nat)
       exact ⟨n + 1, Nat.succ_le_succ hn, by simpa [steps] using e⟩
     · exact ⟨1, Nat.succ_le_succ (Nat.zero_le _), rfl⟩
 
-/-- a world reachable from a freshly built simulation by any number of `step_simulation` calls -/
+theorem initWith_nil (cfg : Config S) (P : NodeId → Proto S σ) : initWith cfg P [] = init cfg P := rfl
+
+theorem initWith_snoc (cfg : Config S) (P : NodeId → Proto S σ) (pre : List (NodeId × Prog S σ))
+    (n : NodeId) (p : Prog S σ) :
+    initWith cfg P (pre ++ [(n, p)]) = (runProg cfg n p (initWith cfg P pre)).1 := by
+  unfold initWith; rw [List.foldl_append]; rfl
+
+/-- induction principle for the worlds `initWith` produces: the freshly built world, closed under one more
+    request program issued through a provider -/
+theorem initWith_induction {cfg : Config S} {P : NodeId → Proto S σ} {C : World S σ → Prop}
+    (h0 : C (init cfg P)) (hs : ∀ n p w, C w → C (runProg cfg n p w).1)
+    (pre : List (NodeId × Prog S σ)) : C (initWith cfg P pre) := by
+  unfold initWith
+  generalize init cfg P = w0 at h0
+  induction pre generalizing w0 with
+  | nil => exact h0
+  | cons np rest ih => exact ih _ (hs _ _ _ h0)
+
+/-- the requests issued before the first step only extend the freshly built world -/
+theorem ext_initWith (cfg : Config S) (P : NodeId → Proto S σ) (pre : List (NodeId × Prog S σ)) :
+    Ext cfg (init cfg P) (initWith cfg P pre) :=
+  initWith_induction (C := fun w => Ext cfg (init cfg P) w) (Ext.refl cfg _)
+    (fun n p w h => h.trans (ext_runProg cfg n p w)) pre
+
+theorem initWith_inv (cfg : Config S) (P : NodeId → Proto S σ) (hdt : 0 ≤ cfg.dt)
+    (pre : List (NodeId × Prog S σ)) : WInv (initWith cfg P pre) :=
+  (ext_initWith cfg P pre).inv (init_inv cfg P hdt)
+
+/-- a world reachable from a freshly built simulation by any requests issued through the nodes' providers
+    before the first step (`pre`, possibly none) followed by any number of `step_simulation` calls -/
 def Reachable (cfg : Config S) (P : NodeId → Proto S σ) (w : World S σ) : Prop :=
-  ∃ n, w = steps cfg P n (init cfg P)
+  ∃ pre n, w = steps cfg P n (initWith cfg P pre)
+
+/-- the special case without requests before the first step -/
+theorem reachable_of_steps (cfg : Config S) (P : NodeId → Proto S σ) (n : Nat) :
+    Reachable cfg P (steps cfg P n (init cfg P)) := ⟨[], n, rfl⟩
+
+/-- every world obtained from requests before the first step and then any number of steps is covered -/
+theorem reachable_of_pre (cfg : Config S) (P : NodeId → Proto S σ) (pre : List (NodeId × Prog S σ)) (n : Nat) :
+    Reachable cfg P (steps cfg P n (initWith cfg P pre)) := ⟨pre, n, rfl⟩
 
 theorem reachable_inv {cfg : Config S} (hdt : 0 ≤ cfg.dt) {P : NodeId → Proto S σ} {w : World S σ}
     (h : Reachable cfg P w) : WInv w := by
-  obtain ⟨n, rfl⟩ := h
-  exact (steps_inv cfg hdt P n _ (init_inv cfg P hdt)).1
+  obtain ⟨pre, n, rfl⟩ := h
+  exact (steps_inv cfg hdt P n _ (initWith_inv cfg P hdt pre)).1
 
 theorem steps_add (cfg : Config S) (P : NodeId → Proto S σ) (m n : Nat) (w : World S σ) :
     steps cfg P (m + n) w = steps cfg P n (steps cfg P m w) := by
@@ -205,7 +242,7 @@ theorem steps_add (cfg : Config S) (P : NodeId → Proto S σ) (m n : Nat) (w : 
 
 theorem reachable_step {cfg : Config S} {P : NodeId → Proto S σ} {w : World S σ}
     (h : Reachable cfg P w) : Reachable cfg P (step cfg P w).1 := by
-  obtain ⟨n, rfl⟩ := h
-  exact ⟨n + 1, by rw [steps_add]; rfl⟩
+  obtain ⟨pre, n, rfl⟩ := h
+  exact ⟨pre, n + 1, by rw [steps_add]; rfl⟩
 
 end Sim
